@@ -53,9 +53,16 @@ pub const RITZ_MIN_GAP: f64 = 0.2;
 /// A run of LOBPCG that is certifiably unconverged (but returns genuine Ritz pairs) is counted as not judged when it misses
 /// the optimality tolerances by at most this factor; beyond it the result is reported as a failure.
 pub const NOT_CONVERGED_SLACK: f64 = 10.0;
-/// Generated data have (n−1)·λ₁ (largest eigenvalue of Xc^T Xc) of order 1 or more; below SCALE_MIN (reachable only by
-/// shrinking towards constant data) a case is not judged: the solver's absolute stopping tolerance 1e-10 is then no tolerance at all.
-pub const SCALE_MIN: f64 = 1e-3;
+/// LOBPCG path (5k <= min(n,p)) only: linfa stops the solver at an *absolute* residual 1e-10·max(|Xc|_F², 1) on the
+/// eigenvalues of Xc^T Xc, which for small-magnitude data is no tolerance at all (measured: at data scale 1e-5 about
+/// half, at 1e-6 all such fits are wrong; at 1e-2 and 1e-3 none of ~9 000). The solver-dependent obligations are
+/// therefore judged in that path only when (n−1)·λ₁ = λ₁(Xc^T Xc) >= LOBPCG_SCALE_MIN (tolerance <= 1e-4·λ₁).
+/// The full-space path (5k > min(n,p)) is exact at every magnitude and is judged without such a bound.
+pub const LOBPCG_SCALE_MIN: f64 = 1e-6;
+/// linfa clamps every singular value at 1e-8 from below ("cut singular values to avoid numerical problems", original
+/// code). The sigma-dependent obligations are judged only when the smallest requested reference singular value
+/// sqrt((n−1)·λ_k) is at least SIGMA_MIN, a factor 10 above the clamp.
+pub const SIGMA_MIN: f64 = 1e-7;
 /// Design domain: singular ratio sigma_1/sigma_k <= 1e3, i.e. lambda_k >= RANGE_MIN·lambda_1.
 pub const RANGE_MIN: f64 = 1e-6;
 
@@ -202,7 +209,7 @@ pub fn check_pca(c: &Case, obs: &mut Obs) {
     let lam1 = lam.first().copied().unwrap_or(0.0);
     // constant (or constant up to round-off) data is not in the generator's domain; shrinking can reach it
     let x_max0 = max_abs(&x);
-    if !(lam1 > 1e-16 * x_max0 * x_max0) || !lam1.is_finite() || (std::env::var("C18_MEAS").is_err() && (n as f64 - 1.0) * lam1 < SCALE_MIN) {
+    if !(lam1 > 1e-16 * x_max0 * x_max0) || !lam1.is_finite() {
         obs.skip("degenerate_covariance");
         return;
     }
@@ -368,7 +375,13 @@ pub fn check_pca(c: &Case, obs: &mut Obs) {
     let row_scale: Vec<f64> = (0..kk).map(|j| if c.whiten { norms[j] * sigma[j] / nm1.sqrt() } else { norms[j] }).collect();
     let unit_rows = row_scale.iter().all(|v| (v * v - 1.0).abs() <= TAU);
     // `spectral`: the solver-dependent obligations are evaluated
-    let mut spectral = in_range;
+    let sigma_k_ref = (nm1 * lam[k - 1].max(0.0)).sqrt();
+    let near_clamp = sigma_k_ref < SIGMA_MIN;
+    let lobpcg_tiny = !small_problem && nm1 * lam1 < LOBPCG_SCALE_MIN;
+    obs.class_if(near_clamp, "sigma_k_below_1e-7(clamp_1e-8):not_judged_spectrally");
+    obs.class_if(lobpcg_tiny, "small_magnitude_lobpcg_path:not_judged_spectrally");
+    obs.class_if(c.global_exp < 0 && in_range && !near_clamp && !lobpcg_tiny, "small_magnitude_judged");
+    let mut spectral = in_range && !near_clamp && !lobpcg_tiny;
     let describe = |what: &str| {
         format!(
             "n={n}, p={p}, embedding size {k}, whiten={}: {what}; sigma^2/(n-1) = {:?}, variances along the components = {:?}, \
@@ -391,6 +404,7 @@ pub fn check_pca(c: &Case, obs: &mut Obs) {
     //     equals the eigenvalue λ_j of its rank; every component carries its own variance except one pair (a, b) with
     //     λ_a + λ_b < λ₁ (necessary for the skipped rotation, see MISPAIR_SUM), which carry each other's (b may lie beyond k, truncated away: then only
     //     component a shows it, carrying λ_b). With that verified nothing else about the answer is left to be wrong.
+    let in_range = in_range && !near_clamp && !lobpcg_tiny;
     let mut mispair: Option<(usize, usize)> = None;
     if in_range && small_problem && sorted && leading_ok && unit_rows && ritz_like && resid_own <= RESID_MAX && kk == k {
         let close = |a: f64, b: f64| (a - b).abs() <= RESID_MAX * b.abs();
@@ -596,6 +610,26 @@ pub fn check_pca(c: &Case, obs: &mut Obs) {
             for (sig, msg) in optimal.drain(..) {
                 obs.fail(sig, msg);
             }
+        } else if resid_own <= RESID_MAX && ritz_like && mismatch <= RESID_MAX && sorted && unit_rows && kk == k && k < p && {
+            // (D) `lobpcg-missed-eigenpair` (LOBPCG path 5k <= p, about 1 fit in 2·10^6): every returned pair is an exact
+            // eigenpair of C (eigenvector on its own scale, sigma_j^2/(n-1) its variance), components 0..k-2 are the
+            // leading ones, but the last one is eigenpair m > k-1: the block iteration locked onto a neighbouring
+            // eigenvalue of a trailing cluster and never saw λ_{k-1}. Recognised by exactly that structure.
+            let close = |x: f64, y: f64| (x - y).abs() <= RESID_MAX * y.abs();
+            (0..kk - 1).all(|j| close(l[j], lam[j])) && !close(l[kk - 1], lam[kk - 1]) && (kk..p).any(|m| close(l[kk - 1], lam[m]))
+        } {
+            spectral = false;
+            obs.class("solver_failed");
+            obs.class("solver_failed:lobpcg_missed_eigenpair");
+            obs.fail(
+                "pca:solver-breakdown:lobpcg-missed-eigenpair",
+                describe(&format!(
+                    "LOBPCG path: all returned pairs are exact eigenpairs of the sample covariance and the first {} are the leading ones, but the last one is a later eigenpair (lambda_{} was missed); failed: {:?}",
+                    kk - 1,
+                    kk - 1,
+                    optimal.iter().map(|(s, _)| *s).collect::<Vec<_>>()
+                )),
+            );
         } else if resid_own > RESID_MAX && ritz_like && mismatch <= RESID_MAX && sorted && excess <= NOT_CONVERGED_SLACK {
             // LOBPCG inside its own domain (5k <= p) stopped at its iteration limit (2n) with a component that the
             // independent residual shows is not converged, the answer is a genuine set of Ritz pairs and misses the
@@ -901,7 +935,7 @@ pub fn property() -> Property {
         rule: "cases = (p 1..=8 [4 of 5] or 10..=16 [1 of 5: the only place where an embedding size >= 2 has 5k <= p], n (max(p+1,5))..=80, embedding size 1..=p \
                with k=1 and k=p over-weighted (p>=10: also 2..=p/5), whitening on/off, shape in {isotropic, rotated anisotropic with population singular ratio \
                <= 10^2.7, low-rank signal + noise 2e-3..1e-1 of the top signal singular value, columns scaled by 10^(-2.5..0)}, column offsets {none, |o|<=10, \
-               |o|<=1000}, global scale 10^{0,1,2}, memory layout of the records given to fit/predict/transform in {row-major owned 3, column-major owned 3, \
+               |o|<=1000}, global scale 10^{0,1,2} (9 of 13) or 10^{-2,-3,-5,-6} (1 of 13 each, offsets shrunk alike), memory layout of the records given to fit/predict/transform in {row-major owned 3, column-major owned 3, \
                every-2nd-row view, every-2nd-column view, reversed-rows view, reversed-columns view 1 each}, fit on Dataset (owned) or DatasetView); the record matrix is derived deterministically from generated gaussians. Reference = two-pass covariance + \
                own Jacobi eigen-decomposition. Non-trivial = (k < p with spectral gap at k > 1e-3*lambda_1) or k = 1 or whitening on; distinct = distinct \
                canonical JSON of the case. The error class (empty data, k = 0, k > p, with valid neighbours) is enumerated.",
@@ -912,9 +946,10 @@ pub fn property() -> Property {
             "with whitening the rows of components() are rescaled by design; orthonormality, eigenspace and optimality are asserted for their directions (rows / norm)".into(),
             "explained-variance ratios only have to be finite, >= 0, not all zero and proportional to sigma_j^2 (any positive common factor)".into(),
             "inverse_transform(transform(X)) is required to be the orthogonal projection about the mean for whitened models too (the statement quantifies over whitening on/off; DESIGN restricted it to un-whitened models)".into(),
-            format!("design domain singular ratio <= 1e3: when lambda_k < {RANGE_MIN:e}*lambda_1 (sampling fluctuation, n close to p) only the solver-independent obligations are judged (class beyond_singular_ratio_1e3); data with (n-1)*lambda_1 < {SCALE_MIN:e} (reachable only by shrinking) is not judged"),
+            format!("design domain singular ratio <= 1e3: when lambda_k < {RANGE_MIN:e}*lambda_1 (sampling fluctuation, n close to p) only the solver-independent obligations are judged (class beyond_singular_ratio_1e3)"),
+            format!("small-magnitude data (global scale 10^-2, 10^-3, 10^-5, 10^-6, offsets shrunk with the data) is judged with the same lambda_1-relative tolerances in the full-space path 5k > min(n,p) (measured exact at every magnitude); in the LOBPCG path (5k <= p) the solver-dependent obligations are judged only when (n-1)*lambda_1 >= {LOBPCG_SCALE_MIN:e}, because linfa's stopping tolerance is absolute (1e-10*max(|Xc|_F^2, 1)) and the unchanged tree is wrong below that (class small_magnitude_lobpcg_path:not_judged_spectrally; reported as a candidate finding, not asserted); sigma-dependent obligations need the reference sigma_k = sqrt((n-1)*lambda_k) >= {SIGMA_MIN:e}, ten times linfa's absolute clamp sigma >= 1e-8"),
             format!("PCA exposes no convergence flag; every obligation is evaluated on whatever fit returns, with one exception: outside 5k > p, a result that the independent residual shows unconverged on a component's own scale, that is a genuine set of Ritz pairs and misses the lambda_1-scaled optimality tolerances by at most a factor {NOT_CONVERGED_SLACK} is counted as not judged (LOBPCG stopped at its iteration limit 2n)"),
-            format!("known findings are recognised only under the exact precondition of the external defect: pca:solver-breakdown:eigenpairs-misassigned = full-space path (5k > min(n,p)) and the answer is the exact decomposition up to ONE transposition: all components eigenvectors with unit-scaled mutually (C-)orthogonal rows, all sigma_j^2/(n-1) sorted and equal to the eigenvalue of their rank, every component carrying its own variance except one pair (a,b) with lambda_a + lambda_b < {MISPAIR_SUM}*lambda_1 (necessary condition of the skipped 2x2 rotation in linfa-linalg symmetric_eig) carrying each other's (b may be truncated away); pca:solver-breakdown:inconsistent-components = full-space path, lambda_k < {GARBAGE_TAIL:e}*lambda_1, a component that is no eigenvector within {RESID_MAX:e} of its own variance and no member of a set of Ritz pairs; pca:solver-breakdown:eigenvector-pair-rotated = full-space path, exact answer except two components a<b that span the eigen-plane span{{e_a,e_b}} but are rotated in it by at most {ROT_MAX} rad, with sigma_a^2/(n-1), sigma_b^2/(n-1) equal to the Rayleigh quotients of the rotated vectors and cov(z_a,z_b) = sin*cos*(lambda_a-lambda_b) (the form the defect takes after linfa's sigma_j = |Xc v_j| post-processing); every other deviation fails under the ordinary signatures (pca:singular-value, pca:subspace, pca:retained-variance, pca:whitened-covariance, ...)"),
+            format!("known findings are recognised only under the exact precondition of the external defect: pca:solver-breakdown:eigenpairs-misassigned = full-space path (5k > min(n,p)) and the answer is the exact decomposition up to ONE transposition: all components eigenvectors with unit-scaled mutually (C-)orthogonal rows, all sigma_j^2/(n-1) sorted and equal to the eigenvalue of their rank, every component carrying its own variance except one pair (a,b) with lambda_a + lambda_b < {MISPAIR_SUM}*lambda_1 (necessary condition of the skipped 2x2 rotation in linfa-linalg symmetric_eig) carrying each other's (b may be truncated away); pca:solver-breakdown:inconsistent-components = full-space path, lambda_k < {GARBAGE_TAIL:e}*lambda_1, a component that is no eigenvector within {RESID_MAX:e} of its own variance and no member of a set of Ritz pairs; pca:solver-breakdown:eigenvector-pair-rotated = full-space path, exact answer except two components a<b that span the eigen-plane span{{e_a,e_b}} but are rotated in it by at most {ROT_MAX} rad, with sigma_a^2/(n-1), sigma_b^2/(n-1) equal to the Rayleigh quotients of the rotated vectors and cov(z_a,z_b) = sin*cos*(lambda_a-lambda_b) (the form the defect takes after linfa's sigma_j = |Xc v_j| post-processing); pca:solver-breakdown:lobpcg-missed-eigenpair = LOBPCG path (5k <= p), an optimality obligation fails while every returned pair is an exact eigenpair, the first k-1 are the leading ones and the last one equals a later eigenvalue lambda_m, m >= k; every other deviation fails under the ordinary signatures (pca:singular-value, pca:subspace, pca:retained-variance, pca:whitened-covariance, ...)"),
             format!("pca:ritz-residual: |C v_j - (sigma_j^2/(n-1)) v_j| <= {RITZ_SLACK} * 1e-10 * max(trace C, 1/(n-1)) (the stopping tolerance linfa configures: precision 1e-5*|Xc|_F, squared by linfa-linalg, on the eigenproblem of Xc^T Xc) is asserted where LOBPCG runs inside its domain and is not cut short by its iteration limit: 5k <= p, 2n >= 10p, relative gap at k >= {RITZ_MIN_GAP}; measured on the unchanged tree (12 quick seeds, about 240 000 such fits): all within 1 x the tolerance. Outside that regime the unchanged tree itself leaves residuals up to ~3e3 x the tolerance (clustered trailing eigenvalues, iteration limit 2n), so nothing tighter than the lambda_1-scaled TAU obligations can be asserted there"),
             "a panic of fit whose payload is linfa-linalg's `NaN values in array` AND whose recorded site is linfa-linalg .../eigh.rs is signature pca:solver-breakdown:nan-panic; any other panic (other payload or other site) is panic:fit".into(),
             "exactly k components are expected inside the design domain (the solver's rank cut-off pinned by test_explained_variance_cutoff is far below it)".into(),
@@ -935,6 +970,7 @@ pub fn property() -> Property {
                     "layout_col_major",
                     "layout_col_major_unequal_column_means",
                     "fit_DatasetView",
+                    "small_magnitude_judged",
                 ]),
             enum_sub("errors", |t: Tier| err_cases(t), check_errors).chunks(2),
         ],
